@@ -267,6 +267,13 @@ func iteAny(c bool, a, b interface{}) interface{} { if c { return a }; return b 
 
 // tryReplay returns a description of the replay attempt (nil if none applies).
 func (cc *checkCtx) tryReplay(prop string, rec *obRecord) map[string]interface{} {
+	// obligations decided by a scan of the module have no solver model; some have a
+	// scenario that shows the consequence on the real code
+	for prefix, drv := range scanReplayDrivers {
+		if strings.HasPrefix(rec.o.Name, prefix) {
+			return drv(cc, rec)
+		}
+	}
 	var fail *Failure
 	for _, f := range rec.o.Failures {
 		if f.Race != nil && f.Race.Result == "sat" {
@@ -284,6 +291,8 @@ func (cc *checkCtx) tryReplay(prop string, rec *obRecord) map[string]interface{}
 }
 
 var replayDrivers = map[string]func(cc *checkCtx, rec *obRecord, f *Failure) map[string]interface{}{}
+
+var scanReplayDrivers = map[string]func(cc *checkCtx, rec *obRecord) map[string]interface{}{}
 
 func basicKind(t types.Type) string {
 	b, ok := t.Underlying().(*types.Basic)
